@@ -215,6 +215,13 @@ func quadTriples(a, b, c, d s2.Point) [][3]s2.Point {
 	return [][3]s2.Point{{a, b, c}, {a, b, d}, {c, d, b}, {c, d, a}}
 }
 
+// antipodal: b == -a componentwise (Go ==). Such a pair is not a geodesic edge (S2 forbids
+// 180-degree edges; PointCross(a,-a) is the zero vector and the crosser's normal is arbitrary):
+// outside the property's domain. These inputs stay in the streams as an informational class
+// (panics, model correspondence, crosser vs stateless function) but are not compared with the
+// exact criterion.
+func antipodal(a, b s2.Point) bool { return b.X == -a.X && b.Y == -a.Y && b.Z == -a.Z }
+
 // ---------- point pools ----------
 
 func norm(v r3.Vector) (s2.Point, bool) {
@@ -410,6 +417,10 @@ func (o *obs) history(pool []s2.Point, nops int) {
 	if a == b {
 		c.Class("edge:degenerate AB")
 	}
+	antiAB := antipodal(a, b)
+	if antiAB {
+		c.Class("antipodal-edge")
+	}
 	nm := newNamer()
 	tb := newTable(nm)
 	e := s2.NewEdgeCrosser(a, b)
@@ -529,7 +540,7 @@ func (o *obs) history(pool []s2.Point, nops int) {
 			if want != s2.DoNotCross || stateless != s2.DoNotCross {
 				nontrivial = true
 			}
-			if stateless != want {
+			if stateless != want && !antiAB {
 				c.Violate(blame("CrossingSign.exact", quadTriples(a, b, cc, d)...), fmt.Sprintf("CrossingSign=%v but the exact four-orientation criterion says %v", stateless, want), rep)
 			}
 			if !eov {
@@ -541,7 +552,7 @@ func (o *obs) history(pool []s2.Point, nops int) {
 				if (code == 11) != s2.EdgeOrVertexCrossing(a, b, cc, d) {
 					c.Violate("EdgeCrosser.history(EdgeOrVertex)", fmt.Sprintf("crosser EdgeOrVertex answer %v at step %d of %s differs from the stateless function", code == 11, k, strings.Join(kinds, "")), rep)
 				}
-				if (code == 11) != wantE {
+				if (code == 11) != wantE && !antiAB {
 					c.Violate(blame("EdgeOrVertexCrossing.consistency", quadTriples(a, b, cc, d)...), "EdgeOrVertexCrossing is not (Cross, or Maybe and VertexCrossing) of the exact criterion", rep)
 				}
 			}
@@ -591,13 +602,25 @@ func (o *obs) quad(a, b, cc, d s2.Point, label string) {
 	vc := s2.VertexCrossing(a, b, cc, d)
 	ev := s2.EdgeOrVertexCrossing(a, b, cc, d)
 	A, B, C, D := nm.name(a), nm.name(b), nm.name(cc), nm.name(d)
-	body := "let t := " + tb.term() + " in " + strings.Join([]string{
+	parts := []string{
 		vkit.App("Z.eqb", vkit.App("x_crossing_sign", "t", A, B, C, D), vkit.Z(int64(cs))),
-		vkit.App("Z.eqb", vkit.App("x_crossing_spec", "t", A, B, C, D), vkit.Z(int64(cs))),
 		vkit.App("Bool.eqb", vkit.App("x_vertex_crossing", "t", A, B, C, D), vkit.B(vc)),
 		vkit.App("Bool.eqb", vkit.App("x_edge_or_vertex_crossing", "t", A, B, C, D), vkit.B(ev)),
-	}, " && ")
+	}
+	if !antipodal(a, b) && !antipodal(cc, d) {
+		// the specification itself, evaluated in Coq on the recorded exact signs (geodesic edges only)
+		parts = append(parts, vkit.App("Z.eqb", vkit.App("x_crossing_spec", "t", A, B, C, D), vkit.Z(int64(cs))))
+	}
+	body := "let t := " + tb.term() + " in " + strings.Join(parts, " && ")
 	c.Check("quad "+label, nm.wrap(body))
+	if antipodal(a, b) || antipodal(cc, d) {
+		c.Class("antipodal-edge")
+		c.Eval("qa"+key(a)+key(b)+key(cc)+key(d), false)
+		if ev != (cs == s2.Cross || (cs == s2.MaybeCross && vc)) {
+			c.Violate("EdgeOrVertexCrossing.consistency", "EdgeOrVertexCrossing differs from (Cross, or Maybe and VertexCrossing)", replayQuad(a, b, cc, d))
+		}
+		return
+	}
 	shared := a == cc || a == d || b == cc || b == d
 	c.Eval("q"+key(a)+key(b)+key(cc)+key(d), cs != s2.DoNotCross || shared)
 	rep := replayQuad(a, b, cc, d)
@@ -770,6 +793,10 @@ func (o *obs) tangentAttack() {
 			return
 		}
 	}
+	if antipodal(a, b) {
+		o.c.Class("antipodal-edge")
+		return
+	}
 	n, ok := norm(a.Cross(b.Vector))
 	if !ok {
 		return
@@ -838,6 +865,17 @@ func (o *obs) corpus() {
 	d := bitsPoint(0x3fe90f7bd8cd8e08, 0xbfcc55408c56be46, 0xbfe2987f204089aa)
 	o.c.Class("corpus")
 	o.quad(a, b, cc, d, "corpus stableSign.underflow")
+	// exactly antipodal AB (not a geodesic edge; informational): the tangent exit fires although
+	// the four exact orientations agree - the witness of Link_C02_C03.H_TANGENT_unguarded_refuted
+	a = bitsPoint(0x3fd01cffc3d38246, 0xbfe6d102b1720240, 0x3fe4f0bdf9903218)
+	b = s2.Point{Vector: a.Mul(-1)}
+	cc = bitsPoint(0, 0x3c91a62633145c00, 0x3ff0000000000000)
+	d = bitsPoint(0xbfe44caae4eca5e9, 0x3fe711b60ba5f296, 0x3fd1dc2089338037)
+	o.quad(a, b, cc, d, "corpus antipodal AB")
+	e := s2.NewChainEdgeCrosser(a, b, cc)
+	if got, st := e.ChainCrossingSign(d), s2.CrossingSign(a, b, cc, d); got != st {
+		o.c.Violate("EdgeCrosser.history", "crosser and stateless CrossingSign differ on the antipodal corpus edge", replayQuad(a, b, cc, d))
+	}
 }
 
 // twinAttack: law_sign_peq and law_refdir_ne on the implementation. RobustSign must not
